@@ -9,19 +9,28 @@ set -x
 cd "$WT" || exit 2
 git -C "$WT" checkout -q -- . ; git -C "$WT" stash list | head -2
 # baseline build + demo
-rm -rf "$WT/_cb"; cmake -G Ninja -S "$WT" -B "$WT/_cb" -DCMAKE_BUILD_TYPE=RelWithDebInfo >/dev/null && cmake --build "$WT/_cb" -j8 >/dev/null || { echo BASE-BUILD-FAILED; exit 1; }
-gcc -O1 -I"$WT/lib" "$SD/demo.c" -o "$WT/_cb/demo_base" -L"$WT/_cb/lib" -lIPSec_MB -lpthread -Wl,-rpath,"$WT/_cb/lib" || { echo DEMO-BUILD-FAILED; exit 1; }
-"$WT/_cb/demo_base" > "$WT/_cb/demo_base.out" 2>&1; RB=$?
-echo "demo on unchanged library: exit $RB"; tail -3 "$WT/_cb/demo_base.out"
+# (BASE_LIB_DIR: an already built unchanged library of the same commit, shared between confirmations)
+if [ -n "$BASE_LIB_DIR" ] && [ -f "$BASE_LIB_DIR/lib/libIPSec_MB.so" ]; then BL="$BASE_LIB_DIR"; else
+rm -rf "$WT/_cb"; cmake -G Ninja -S "$WT" -B "$WT/_cb" -DCMAKE_BUILD_TYPE=RelWithDebInfo -DBUILD_LIBRARY_ONLY=ON >/dev/null && cmake --build "$WT/_cb" -j8 >/dev/null || { echo BASE-BUILD-FAILED; exit 1; }
+BL="$WT/_cb"; fi
+mkdir -p "$WT/_demo"
+gcc -O1 -I"$WT/lib" "$SD/demo.c" -o "$WT/_demo/demo_base" -L"$BL/lib" -lIPSec_MB -lpthread -Wl,-rpath,"$BL/lib" || { echo DEMO-BUILD-FAILED; exit 1; }
+"$WT/_demo/demo_base" > "$WT/_demo/demo_base.out" 2>&1; RB=$?
+echo "demo on unchanged library ($BL): exit $RB"; tail -3 "$WT/_demo/demo_base.out"
 # changed build (clean rebuild: NASM include deps are not tracked)
 git -C "$WT" apply "$SD/patch.diff" || { echo PATCH-DOES-NOT-APPLY; exit 1; }
 rm -rf "$WT/_cb"; cmake -G Ninja -S "$WT" -B "$WT/_cb" -DCMAKE_BUILD_TYPE=RelWithDebInfo >/dev/null && cmake --build "$WT/_cb" -j8 >/dev/null || { echo CHANGED-BUILD-FAILED; exit 1; }
 gcc -O1 -I"$WT/lib" "$SD/demo.c" -o "$WT/_cb/demo_mut" -L"$WT/_cb/lib" -lIPSec_MB -lpthread -Wl,-rpath,"$WT/_cb/lib" || exit 1
 "$WT/_cb/demo_mut" > "$WT/_cb/demo_mut.out" 2>&1; RM=$?
 echo "demo on changed library: exit $RM"; tail -5 "$WT/_cb/demo_mut.out"
-( cd "$WT/_cb" && ctest -j8 --timeout 3000 2>&1 | tail -15 ) > "$SD/ctest_changed.log"
+( cd "$WT/_cb" && ctest -j8 --timeout 3000 2>&1 | tail -25 ) > "$SD/ctest_changed.log"
 tail -5 "$SD/ctest_changed.log"
 PASS=$(grep -c "100% tests passed" "$SD/ctest_changed.log")
+if [ "$PASS" != 1 ] && ! grep -q "Failed\|Timeout" "$SD/ctest_changed.log"; then
+  # tests killed from outside on this shared host ("Subprocess terminated" only): run those again once
+  ( cd "$WT/_cb" && ctest --rerun-failed -j4 --timeout 3000 2>&1 | tail -15 ) >> "$SD/ctest_changed.log"
+  PASS=$(grep -c "100% tests passed" "$SD/ctest_changed.log")
+fi
 git -C "$WT" checkout -q -- .
 echo "SUMMARY base_demo_exit=$RB changed_demo_exit=$RM suite_pass=$PASS"
 [ "$RB" = 0 ] && [ "$RM" != 0 ] && [ "$PASS" = 1 ]
